@@ -16,6 +16,29 @@ PROPS = {
         rules=["NoPanic", "NoHang", "HeapBound", "PeekTotal"],
         shards=14,
     ),
+    "C03": dict(
+        mc=["MC_Compress"],
+        gen=[dict(module="Gen_Packet", cfg="Gen_Packet.cfg", out="packet_cases.ndjson",
+                  simulate=dict(quick="num=1500", thorough="num=25000", depth=40))],
+        topic="compress",
+        rules=["NoPanic", "BuildOk", "CompDecodes", "CompShorter", "CompRoundTrip"],
+        shards=14,
+    ),
+    "C07": dict(
+        mc=["MC_Compress"],
+        gen=[dict(module="Gen_Packet", cfg="Gen_Packet.cfg", out="packet_cases.ndjson",
+                  simulate=dict(quick="num=1500", thorough="num=25000", depth=40))],
+        topic="compress",
+        rules=["PtrValid", "PtrForbidden", "PtrRequired", "CompDecodes"],
+        shards=14,
+    ),
+    "C04": dict(
+        gen=[dict(module="Gen_Packet", cfg="Gen_Packet.cfg", out="packet_cases.ndjson",
+                  simulate=dict(quick="num=600", thorough="num=25000", depth=40))],
+        topic="sinks",
+        rules=["NoPanic", "SinkErr", "SinkSame"],
+        shards=14,
+    ),
     "C05": dict(
         gen=[dict(module="Gen_Framing", cfg="Gen_Framing.cfg", out="framing_cases.ndjson")],
         topic="framing",
@@ -185,5 +208,41 @@ TEXT = {
               "fallible conversions succeed exactly when the bytes are well-formed UTF-8 (Bytes.tla)."),
         note=_TRUSTED + " The observer list is the one enumerated in harness/src/inspect.rs.",
         technique="TLC-generated wire messages parsed by the crate; observer outcomes validated by the TLA+ trace spec (UTF-8 automaton as oracle)",
+    ),
+    "C03": dict(
+        text=("Model: the crate's compressing writer is transcribed action by action (MC_Compress) and TLC checks, for all "
+              "sequences of up to 3 (thorough 4) names over a two-letter label universe in compressible / "
+              "non-compressible positions with a scaled 4-bit pointer field, that the output expands to the intended "
+              "names and is never longer than the plain encoding -- including names first written beyond the largest "
+              "expressible offset. Code: every packet of the builder state machine (suffix-sharing name tree) and "
+              "large-message recipes with a name first appearing at each offset 16376..16392 and at 20000..65000 are "
+              "serialised both ways by the crate; TLC's reference decoder must decode the compressed bytes to the same "
+              "packet, the crate must parse them to the same packet, and the compressed length must not exceed the "
+              "plain length."),
+        note=_TRUSTED,
+        technique="TLA+ Impl model of the compressor model-checked against the Ref decoder with scaled constants; builder behaviours and large recipes replayed; trace validation",
+    ),
+    "C07": dict(
+        text=("A schema-aware walker in TLA+ (Compress.tla) locates every name site of every compressed message the crate "
+              "emits for the builder-machine packets and the large recipes, and TLC checks per site: pointers strictly "
+              "backwards, <= 16383, to a label boundary of an earlier-written name (PtrValid); no pointer inside SRV, "
+              "NAPTR, KX, RRSIG, NSEC, IPSECKEY, SVCB/HTTPS RDATA (PtrForbidden); a whole name already written in a "
+              "question/owner/RFC 1035 RDATA position at an offset <= 16383 is a bare pointer (PtrRequired); the whole "
+              "message decodes to the intended packet. Message-relative offsets for writers starting at non-zero "
+              "positions are decided by C04's SinkSame on compressed output. The same rules are model-checked on the "
+              "Impl compressor with scaled constants (MC_Compress)."),
+        note=_TRUSTED + " RP, AFSDB, RT, NSAP-PTR names are unconstrained (either form accepted).",
+        technique="TLA+ schema-aware pointer walker as oracle over recorded outputs; Impl compressor model-checked",
+    ),
+    "C04": dict(
+        text=("For packets of the builder state machine x {plain, compressed}: the writer-based entry points are run into a "
+              "growable Cursor<Vec> at offsets 0/2/7 over storage with no/shorter/longer pre-existing content, and into "
+              "fixed &mut [u8] / Cursor<&mut [u8]> (offset 0 and 3) of every capacity 0..len+2; TLC checks that the "
+              "written region equals the vector-returning entry point's bytes, nothing else in the storage changed, and "
+              "too-small writers yield an error (never a panic, never a short write). Framing of the vector outputs "
+              "themselves (counts, RDLENGTHs, exact consumption, EDNS counted once) is checked byte for byte against "
+              "the reference encoder / decoder on the same packets (PlainCanonical, CompDecodes)."),
+        note=_TRUSTED,
+        technique="recorded writer outcomes validated by the TLA+ trace spec against the Ref encoder/decoder",
     ),
 }
